@@ -74,6 +74,20 @@ def _witness_instead(ctx, mod, why, cmd):
     """The code changed so much that the contracts cannot be applied (anchor moved, loop structure changed, syntax outside the
     subset): that alone is UNDECIDED.  If the property's native witness search finds a failing input on the real code, the
     property is violated whatever the contracts say - report it (refutations that replay on the real code are always sound)."""
+    # obligations already decided on the AST before the contracts stopped applying (frame scans, closed-world scans) stand
+    bad = [o for o in ctx.obls if o.status == 'failed' and o.backend == 'syntactic' and o.kind not in ('canary', 'vacuity')]
+    findings = core.load_known_findings()
+    bad = [o for o in bad if core.match_known(ctx.pid, o.name, findings) is None]
+    if bad:
+        os.makedirs(os.path.join(core.VERIF, 'replays'), exist_ok=True)
+        for o in bad:
+            import re as _re
+            path = os.path.join(core.VERIF, 'replays', '%s-%s.json' % (ctx.pid, _re.sub(r'[^A-Za-z0-9_.-]+', '_', o.name)[-120:]))
+            json.dump({'property': ctx.pid, 'obligation': o.name, 'kind': o.kind, 'solver': 'syntactic', 'solver_output': o.detail, 'note': 'decided on the real AST; the remaining contracts could not be applied: ' + why}, open(path, 'w'), indent=1, default=str)
+            print('VIOLATION property=%s replay=%s no-failing-input-found' % (ctx.pid, path))
+            print('  failed obligation: %s' % o.name)
+        _fallback_evidence(ctx, cmd, 'violation of %d syntactic obligation(s); %s' % (len(bad), why), violations=len(bad))
+        return True
     ws = getattr(mod, 'native_witness', None) if mod is not None else None
     if ws is None:
         return False
